@@ -583,7 +583,7 @@ func (n *Node) blockJSON(b *Block, full bool) json.RawMessage {
 		}
 		fmt.Fprintf(&sb, `{"blockHash":"%s","blockNumber":"%s","hash":"%s","transactionIndex":"%s","type":"%s","nonce":"%s","gasPrice":"%s","gas":"%s","from":"%s","to":%s,"value":"%s","input":"%s","v":"0x1","r":"0x1","s":"0x1","chainId":"%s"`,
 			hx(b.Hash), hq(b.Num), hx(tx.Hash), hq(tx.Idx), hq(uint64(tx.Type)), hq(tx.Nonce), hbig(tx.GasPrice), hq(tx.Gas), hx(tx.From), to, hbig(tx.Value), hx(tx.Input), hq(n.ChainID))
-		if tx.Type == 2 {
+		if tx.Type >= 2 {
 			fmt.Fprintf(&sb, `,"maxPriorityFeePerGas":"%s","maxFeePerGas":"%s"`, hbig(tx.MaxPrio), hbig(tx.MaxFee))
 		}
 		sb.WriteString("}")
